@@ -56,11 +56,92 @@ func c07ValueSet(t *rapid.T, name string) string {
 	return "{" + strings.Join(parts, ", ") + "}"
 }
 
+// c07SelInfo records which shapes a generated selector contains.
+type c07SelInfo struct {
+	sameLabelAnd bool // AND whose operands all restrict one label
+	unsortedOr   bool // ... and a later operand is an OR whose literals are not in ascending order
+}
+
+// c07SameLabelAnd generates an AND whose operands all restrict the same label (via ==, in
+// {...} and ORs of equalities / ins on that label, literals in arbitrary order) and share
+// at least one value, so the selector is satisfiable and its restriction is an intersection
+// of value lists that were built in different orders.
+func c07SameLabelAnd(t *rapid.T, info *c07SelInfo) string {
+	name := rapid.SampledFrom(c07LabelNames).Draw(t, "slLabel")
+	pool := c07Values
+	if name == "w" {
+		pool = c07WideValues
+	}
+	common := rapid.SampledFrom(pool).Draw(t, "slCommon")
+	// valuesWithCommon returns 1..3 values containing common at a drawn position.
+	valuesWithCommon := func(min int) []string {
+		n := rapid.IntRange(min, 3).Draw(t, "slNumValues")
+		vals := make([]string, n)
+		pos := rapid.IntRange(0, n-1).Draw(t, "slCommonPos")
+		for i := range vals {
+			if i == pos {
+				vals[i] = common
+			} else {
+				vals[i] = rapid.SampledFrom(pool).Draw(t, "slExtra")
+			}
+		}
+		return vals
+	}
+	inSet := func(vals []string) string {
+		var parts []string
+		for _, v := range vals {
+			parts = append(parts, fmt.Sprintf("%q", v))
+		}
+		return fmt.Sprintf("%s in {%s}", name, strings.Join(parts, ", "))
+	}
+	nOps := rapid.IntRange(2, 3).Draw(t, "slOperands")
+	kinds := make([]string, nOps)
+	laterOr := false
+	for i := range kinds {
+		kinds[i] = rapid.SampledFrom([]string{"in", "in", "eq", "or", "or"}).Draw(t, "slKind")
+		if i > 0 && kinds[i] == "or" {
+			laterOr = true
+		}
+	}
+	if !laterOr {
+		kinds[nOps-1] = "or"
+	}
+	var ops []string
+	for i, k := range kinds {
+		switch k {
+		case "eq":
+			ops = append(ops, fmt.Sprintf("%s == %q", name, common))
+		case "in":
+			ops = append(ops, inSet(valuesWithCommon(1)))
+		default:
+			vals := valuesWithCommon(2)
+			var parts []string
+			for j := 0; j < len(vals); j++ {
+				if rapid.IntRange(0, 3).Draw(t, "slDisjunctIsIn") == 0 && j+1 < len(vals) {
+					parts = append(parts, inSet(vals[j:j+2]))
+					j++
+				} else {
+					parts = append(parts, fmt.Sprintf("%s == %q", name, vals[j]))
+				}
+			}
+			if i > 0 && !sort.StringsAreSorted(vals) {
+				info.unsortedOr = true
+			}
+			ops = append(ops, "("+strings.Join(parts, " || ")+")")
+		}
+	}
+	info.sameLabelAnd = true
+	return "(" + strings.Join(ops, " && ") + ")"
+}
+
 // c07SelText generates selector text over the small vocabulary, biased towards forms that
 // produce label restrictions and towards their negations / disjunctions.
-func c07SelText(t *rapid.T, depth int) string {
+func c07SelText(t *rapid.T, depth int, info *c07SelInfo) string {
 	k := 0
 	if depth > 0 {
+		if rapid.IntRange(0, 7).Draw(t, "selSameLabelAnd") == 0 {
+			return c07SameLabelAnd(t, info)
+		}
 		k = rapid.IntRange(0, 9).Draw(t, "selNode")
 	}
 	switch {
@@ -89,7 +170,7 @@ func c07SelText(t *rapid.T, depth int) string {
 			return "all()"
 		}
 	case k == 5:
-		return "!(" + c07SelText(t, depth-1) + ")"
+		return "!(" + c07SelText(t, depth-1, info) + ")"
 	default:
 		op := " && "
 		if k >= 8 {
@@ -98,7 +179,7 @@ func c07SelText(t *rapid.T, depth int) string {
 		n := rapid.IntRange(2, 3).Draw(t, "selArity")
 		var parts []string
 		for i := 0; i < n; i++ {
-			parts = append(parts, c07SelText(t, depth-1))
+			parts = append(parts, c07SelText(t, depth-1, info))
 		}
 		return "(" + strings.Join(parts, op) + ")"
 	}
@@ -223,6 +304,7 @@ func TestVerifC07LabelIndexes(t *testing.T) {
 		nvi := labelnamevalueindex.New[string, c07Own]("items")
 
 		var ops []string
+		nSelectors, nSameLabelAnd, nUnsortedOr := 0, 0, 0
 		classes := map[string]bool{}
 		nontrivial := false
 		parentFlip := false
@@ -419,7 +501,22 @@ func TestVerifC07LabelIndexes(t *testing.T) {
 			},
 			"updateSelector": func(t *rapid.T) {
 				id := rapid.SampledFrom(c07SelIDs).Draw(t, "selID")
-				txt := c07SelText(t, rapid.IntRange(0, 3).Draw(t, "selDepth"))
+				var info c07SelInfo
+				var txt string
+				if rapid.IntRange(0, 4).Draw(t, "selTopSameLabelAnd") == 0 {
+					txt = c07SameLabelAnd(t, &info)
+				} else {
+					txt = c07SelText(t, rapid.IntRange(0, 3).Draw(t, "selDepth"), &info)
+				}
+				nSelectors++
+				if info.sameLabelAnd {
+					nSameLabelAnd++
+					classes["and-same-label"] = true
+				}
+				if info.unsortedOr {
+					nUnsortedOr++
+					classes["and-same-label-or-unsorted"] = true
+				}
 				sel, err := selector.Parse(txt)
 				if err != nil {
 					t.Fatalf("HARNESS-GAP: generated selector %q does not parse: %v", txt, err)
@@ -452,6 +549,9 @@ func TestVerifC07LabelIndexes(t *testing.T) {
 			classes["pruning-excluded-nonmatching"] = true
 		}
 		cls := c07SortedKeys(classes)
+		rec.Class("selectors-generated", int64(nSelectors))
+		rec.Class("selectors-and-same-label", int64(nSameLabelAnd))
+		rec.Class("selectors-and-same-label-or-unsorted", int64(nUnsortedOr))
 		key := strings.Join(ops, "")
 		if pruned {
 			key += "|pruned"
